@@ -818,5 +818,251 @@ class AnalyzeDirectoryForImport(Contract):
             ex.oblige(self.oname("raises:StatepointParsingError_only_if_two_sources_map_to_the_same_job"), z3.And(z3.BoolVal(isinstance(e, StatepointParsingError)), dup), note=repr(e))
 
 
+# ============================================================================= export_jobs: which exporter a target reaches
+
+
+class SArchive(Sym):
+    def __init__(self, kind, mode=None, opened_by_us=False):
+        self.kind, self.mode, self.opened_by_us = kind, mode, opened_by_us
+        self.closed = False
+
+    def sym_with(self, interp, body):
+        try:
+            return body(self)
+        finally:
+            self.closed = True
+
+    def sym_isinstance(self, ex, cls):
+        import tarfile as _t
+        from zipfile import ZipFile as _Z
+        return (cls is _Z and self.kind == "zip") or (cls is _t.TarFile and self.kind == "tar") or cls is object
+
+
+class ExportJobsDispatch(Contract):
+    """the target's extension (or type) is the only thing examined: one case per extension class"""
+    target = f"{IE}.export_jobs"
+    properties = ("C16",)
+
+    TARGETS = {"dir": "out/data", "zip": "out/data.zip", "tar": "out/data.tar", "gz": "out/data.tar.gz", "bz2": "out/data.tar.bz2", "xz": "out/data.tar.xz", "txt": "out/data.txt",
+               "ZipFile": "zip-object", "TarFile": "tar-object", "other": 3}
+
+    def cases(self):
+        return [{"target": t, "copytree": c} for t in self.TARGETS for c in (False, True)]
+
+    def make_ctx(self, case):
+        import tarfile
+        import zipfile
+        ctx = super().make_ctx(case)
+        g = ctx.ghost
+        g["calls"], g["opened"], g["out"] = [], [], []
+
+        def exporter(name):
+            def stub(interp, b):
+                g["calls"].append((name, dict(b)))
+                return [(STok("src1"), STok("dst1"))]
+            return stub
+        ctx.callee_contracts[f"{IE}.export_to_directory"] = exporter("directory")
+        ctx.callee_contracts[f"{IE}.export_to_zipfile"] = exporter("zipfile")
+        ctx.callee_contracts[f"{IE}.export_to_tarfile"] = exporter("tarfile")
+
+        def zopen(interp, *a, **k):
+            o = SArchive("zip", k.get("mode", a[1] if len(a) > 1 else "r"), True)
+            g["opened"].append((o, a, k))
+            return o
+
+        def topen(interp, *a, **k):
+            o = SArchive("tar", k.get("mode", a[1] if len(a) > 1 else "r"), True)
+            g["opened"].append((o, a, k))
+            return o
+        ctx.externals[zipfile.ZipFile] = zopen
+        ctx.externals[tarfile.open] = topen
+        return ctx
+
+    def setup(self, interp, case):
+        t = self.TARGETS[case["target"]]
+        if t == "zip-object":
+            t = SArchive("zip")
+        elif t == "tar-object":
+            t = SArchive("tar")
+        jobs, path = STok("jobs"), STok("path")
+        ct = STok("copytree") if case["copytree"] else None
+        return [], {"jobs": jobs, "target": t, "path": path, "copytree": ct}, {"jobs": jobs, "t": t, "path": path, "ct": ct}
+
+    def yield_hook(self, interp, case, pre):
+        return lambda v: interp.ctx.ghost["out"].append(v)
+
+    def post(self, interp, case, pre, outcome):
+        from zipfile import ZIP_DEFLATED
+        ex, g = interp.ex, interp.ctx.ghost
+        t, kind, calls, opened = pre["t"], case["target"], g["calls"], g["opened"]
+        if case["copytree"] and kind != "dir":
+            ex.oblige(self.oname("raises:a_custom_copytree_is_refused_for_anything_but_a_directory_target_before_anything_is_exported"),
+                      z3.BoolVal(outcome[0] == "raise" and isinstance(outcome[1], ValueError) and not calls and not opened), note=repr((outcome, calls)))
+            return
+        if kind in ("txt", "other"):
+            ex.oblige(self.oname("raises:TypeError_for_an_unknown_extension_or_target_type"), z3.BoolVal(outcome[0] == "raise" and isinstance(outcome[1], TypeError) and not calls and not opened), note=repr(outcome))
+            return
+        if outcome[0] != "return":
+            ex.oblige(self.oname("raises:nothing_for_a_supported_target"), False, note=repr(outcome[1]))
+            return
+        want = {"dir": "directory", "zip": "zipfile", "ZipFile": "zipfile"}.get(kind, "tarfile")
+        ok = len(calls) == 1 and calls[0][0] == want and calls[0][1].get("jobs") is pre["jobs"] and calls[0][1].get("path") is pre["path"]
+        ex.oblige(self.oname("ensures:exactly_one_exporter,_the_one_for_the_target's_kind,_gets_the_jobs_and_the_path_specification"), z3.BoolVal(bool(ok)), note=repr(calls)[:300])
+        ex.oblige(self.oname("ensures:what_the_exporter_reports_is_passed_on"), z3.BoolVal(len(g["out"]) == 1))
+        if not ok:
+            return
+        b = calls[0][1]
+        if kind == "dir":
+            ex.oblige(self.oname("ensures:a_directory_export_goes_to_the_target_with_the_caller's_copytree"), z3.BoolVal(b.get("target") == t and b.get("copytree") is pre["ct"] and not opened))
+        elif kind in ("ZipFile", "TarFile"):
+            ex.oblige(self.oname("ensures:an_archive_object_is_used_as_it_is"), z3.BoolVal((b.get("zipfile") if kind == "ZipFile" else b.get("tarfile")) is t and not opened))
+        else:
+            mode = {"zip": "w", "tar": "a", "gz": "w:gz", "bz2": "w:bz2", "xz": "w:xz"}[kind]
+            o = opened[0][0] if len(opened) == 1 else None
+            k = opened[0][2] if o else {}
+            a = opened[0][1] if o else ()
+            name_ok = o is not None and ((a and a[0] == t) or k.get("name") == t)
+            ok2 = name_ok and o.mode == mode and o.closed and (b.get("zipfile") if kind == "zip" else b.get("tarfile")) is o and (kind != "zip" or k.get("compression") == ZIP_DEFLATED)
+            ex.oblige(self.oname("ensures:an_archive_path_is_opened_in_the_mode_of_its_extension,_exported_into,_and_closed"), z3.BoolVal(bool(ok2)), note=repr((opened, b))[:300])
+
+
 CONTRACTS = [CheckDirStructure(), ExportJobs(), CheckPathFunctionUnique(), MakePathFunction(), CrawlDataSpace(), CopyToJobWorkspace(), WithConsistencyCheck(),
-             AnalyzeDirectoryForImport()]
+             AnalyzeDirectoryForImport(), ExportJobsDispatch()]
+
+
+# ============================================================================= import front end: _prepare_import_into_project, import_into_project
+
+
+class PrepareImport(Contract):
+    target = f"{IE}._prepare_import_into_project"
+    properties = ("C16",)
+
+    def cases(self):
+        return [{"origin": o} for o in ("zip", "tar", "other-file", "dir", "missing")]
+
+    def make_ctx(self, case):
+        import tarfile
+        import zipfile
+        from tempfile import TemporaryDirectory
+        ctx = super().make_ctx(case)
+        g = ctx.ghost
+        g["calls"], g["opened"], g["body_seen"] = [], [], []
+        k = case["origin"]
+        ctx.externals[os.path.isfile] = lambda interp, p: k in ("zip", "tar", "other-file")
+        ctx.externals[os.path.isdir] = lambda interp, p: k == "dir"
+        ctx.externals[zipfile.is_zipfile] = lambda interp, p: k == "zip"
+        ctx.externals[tarfile.is_tarfile] = lambda interp, p: k == "tar"
+
+        def opener(kind):
+            def f(interp, *a, **kw):
+                o = SArchive(kind, kw.get("mode", "r"), True)
+                g["opened"].append((o, a, kw))
+                return o
+            return f
+        ctx.externals[zipfile.ZipFile] = opener("zip")
+        ctx.externals[tarfile.open] = opener("tar")
+        ctx.externals[TemporaryDirectory] = opener("tmpdir")
+
+        def analyser(name):
+            def stub(interp, b):
+                g["calls"].append((name, dict(b)))
+                return STok(f"mapping-from-{name}")
+            return stub
+        ctx.callee_contracts[f"{IE}._analyze_zipfile_for_import"] = analyser("zip")
+        ctx.callee_contracts[f"{IE}._analyze_tarfile_for_import"] = analyser("tar")
+        ctx.callee_contracts[f"{IE}._analyze_directory_for_import"] = analyser("dir")
+        return ctx
+
+    def setup(self, interp, case):
+        origin, proj, schema = "ORIGIN", STok("project"), STok("schema")
+        return [origin, proj, schema], {}, {"origin": origin, "proj": proj, "schema": schema}
+
+    def yield_hook(self, interp, case, pre):
+        def hook(v):
+            g = interp.ctx.ghost
+            # the with-body of the caller runs here: archives / temporary directory must still be open
+            g["body_seen"].append((v, [o.closed for o, _, _ in g["opened"]]))
+        return hook
+
+    def post(self, interp, case, pre, outcome):
+        ex, g, k = interp.ex, interp.ctx.ghost, case["origin"]
+        if k == "other-file":
+            ex.oblige(self.oname("raises:RuntimeError_for_a_file_that_is_no_archive"), z3.BoolVal(outcome[0] == "raise" and isinstance(outcome[1], RuntimeError) and not g["calls"]), note=repr(outcome))
+            return
+        if k == "missing":
+            ex.oblige(self.oname("raises:ValueError_for_an_origin_that_does_not_exist"), z3.BoolVal(outcome[0] == "raise" and isinstance(outcome[1], ValueError) and not g["calls"]), note=repr(outcome))
+            return
+        calls, seen = g["calls"], g["body_seen"]
+        ok = outcome[0] == "return" and len(calls) == 1 and calls[0][0] == k and calls[0][1].get("project") is pre["proj"] and calls[0][1].get("schema") is pre["schema"]
+        ex.oblige(self.oname("ensures:the_analyser_for_the_origin's_kind_gets_the_project_and_the_schema"), z3.BoolVal(bool(ok)), note=repr(calls)[:300])
+        ex.oblige(self.oname("ensures:its_mapping_is_handed_to_the_caller_while_the_archive_(and_temporary_directory)_is_still_open"),
+                  z3.BoolVal(len(seen) == 1 and isinstance(seen[0][0], STok) and not any(seen[0][1])), note=repr(seen))
+        if ok and k == "dir":
+            ex.oblige(self.oname("ensures:a_directory_is_analysed_from_its_root"), z3.BoolVal(calls[0][1].get("root") == pre["origin"] and not g["opened"]))
+        if ok and k in ("zip", "tar"):
+            arch = [o for o, _, _ in g["opened"] if o.kind == k]
+            b = calls[0][1]
+            okk = len(arch) == 1 and (b.get("zipfile") if k == "zip" else b.get("tarfile")) is arch[0] and all(o.closed for o, _, _ in g["opened"])
+            if k == "tar":
+                tmp = [o for o, _, _ in g["opened"] if o.kind == "tmpdir"]
+                okk = okk and len(tmp) == 1 and b.get("tmpdir") is tmp[0]
+            ex.oblige(self.oname("ensures:an_archive_is_opened_read-only,_analysed,_and_closed_afterwards"), z3.BoolVal(bool(okk)), note=repr(g["opened"])[:200])
+
+
+class ImportIntoProject(Contract):
+    target = f"{IE}.import_into_project"
+    properties = ("C16",)
+
+    def cases(self):
+        return [{"origin": o, "copytree": c, "n": n} for o in ("dir", "archive") for c in (False, True) for n in (0, 2)]
+
+    def make_ctx(self, case):
+        import shutil
+        ctx = super().make_ctx(case)
+        g = ctx.ghost
+        g["copies"], g["out"] = [], []
+        ctx.externals[os.path.isdir] = lambda interp, p: case["origin"] == "dir"
+
+        def mkexec(i):
+            def ex_(ct=None):
+                g["copies"].append((i, ct))
+                return STok(f"dst{i}")
+            return NativeStub(ex_, f"executor{i}")
+        g["mapping"] = [(STok(f"src{i}"), mkexec(i)) for i in range(case["n"])]
+
+        class CM(Sym):
+            def sym_with(self, interp, body):
+                return body(g["mapping"])
+
+        def prep(interp, b):
+            g["prep"] = dict(b)
+            return CM()
+        ctx.callee_contracts[f"{IE}._prepare_import_into_project"] = prep
+        g["shutil_copytree"] = shutil.copytree
+        return ctx
+
+    def setup(self, interp, case):
+        proj, schema = STok("project"), STok("schema")
+        ct = STok("copytree") if case["copytree"] else None
+        return ["ORIGIN", proj], {"schema": schema, "copytree": ct}, {"proj": proj, "schema": schema, "ct": ct}
+
+    def yield_hook(self, interp, case, pre):
+        return lambda v: interp.ctx.ghost["out"].append(v)
+
+    def post(self, interp, case, pre, outcome):
+        import shutil
+        ex, g = interp.ex, interp.ctx.ghost
+        if outcome[0] != "return":
+            ex.oblige(self.oname("raises:nothing_of_its_own"), False, note=repr(outcome[1]))
+            return
+        p = g.get("prep", {})
+        ex.oblige(self.oname("ensures:the_origin_is_prepared_with_the_project_and_the_schema"), z3.BoolVal(p.get("origin") == "ORIGIN" and p.get("project") is pre["proj"] and p.get("schema") is pre["schema"]), note=repr(p))
+        want_ct = pre["ct"] if pre["ct"] is not None else (shutil.copytree if case["origin"] == "dir" else None)
+        ok = [c[0] for c in g["copies"]] == list(range(case["n"])) and all((c[1] is want_ct) or (want_ct is shutil.copytree and getattr(c[1], "real", c[1]) is shutil.copytree) for c in g["copies"])
+        ex.oblige(self.oname("ensures:every_mapped_source_is_copied_exactly_once,_with_the_caller's_copytree_(default:_shutil.copytree_for_a_directory,_the_archive's_own_way_otherwise)"),
+                  z3.BoolVal(bool(ok)), note=repr(g["copies"]))
+        out_ok = len(g["out"]) == case["n"] and all(isinstance(o, tuple) and o[0] is g["mapping"][i][0] and isinstance(o[1], STok) and o[1].name == f"dst{i}" for i, o in enumerate(g["out"]))
+        ex.oblige(self.oname("ensures:each_copy_is_reported_as_(source,_destination)"), z3.BoolVal(bool(out_ok)), note=repr(g["out"]))
+
+
+CONTRACTS += [PrepareImport(), ImportIntoProject()]
